@@ -1,4 +1,5 @@
 import XdistProofs.Contract.LoadRefines
+import XdistProofs.Contract.WorkStealRefines
 /-!
 # C01 — every collected test runs exactly once (load-balancing modes, no worker failure)
 
@@ -50,6 +51,51 @@ example :
        .schedule, .markComplete 0 0 false, .markComplete 1 2 false, .markComplete 0 1 false,
        .markComplete 0 4 false, .markComplete 1 3 false] = some (s, e, g)
       ∧ s.collection = some [10, 11, 12, 13, 14] ∧ g.crashed = [] ∧ g.requeued = [] ∧ (view s).all = [] := by
+  refine ⟨_, _, _, rfl, ?_⟩
+  decide
+
+/-! ### `--dist worksteal` -/
+
+theorem C01_worksteal_ledger (k : Nat) (e0 : Env) (ops : List (SOp τ))
+    {s : WorkSteal.State τ} {e : Env} {g : Ghost}
+    (hl : WorkSteal.AllLegal (WorkSteal.init k) e0 ops)
+    (h : WorkSteal.runOps (WorkSteal.init k) e0 {} ops = some (s, e, g)) :
+    Bal (WorkSteal.view s) g ∧ WorkSteal.StartedOK s g := by
+  have := WorkSteal.runOps_inv (τ := τ) (s := WorkSteal.init k) (e := e0) (g := {}) (by intro _; rfl)
+    (by simp [WorkSteal.KeysNodup, WorkSteal.init, AList.keys])
+    (by simp [Bal, WorkSteal.view, WorkSteal.init, View.all, AList.values])
+    (by simp [WorkSteal.StartedOK, WorkSteal.init]) hl h
+  exact ⟨this.2.2.1, this.2.2.2⟩
+
+/-- worksteal: as for load, with steal round trips in the sequence (each reply listing tests of the victim's book). -/
+theorem C01_worksteal_exactly_once (k : Nat) (e0 : Env) (ops : List (SOp τ))
+    {s : WorkSteal.State τ} {e : Env} {g : Ghost} {col : List τ}
+    (hl : WorkSteal.AllLegal (WorkSteal.init k) e0 ops)
+    (h : WorkSteal.runOps (WorkSteal.init k) e0 {} ops = some (s, e, g))
+    (hcol : s.collection = some col) (hcrash : g.crashed = []) (hreq : g.requeued = []) :
+    ((WorkSteal.view s).all ++ g.completed).Perm (List.range col.length) ∧
+    ((WorkSteal.view s).all = [] → g.completed.Perm (List.range col.length) ∧ g.completed.Nodup) := by
+  obtain ⟨hb, hs⟩ := C01_worksteal_ledger k e0 ops hl h
+  unfold Bal at hb
+  unfold WorkSteal.StartedOK at hs
+  rw [hcol] at hs
+  rw [hcrash, hreq, hs] at hb
+  simp only [List.append_nil] at hb
+  refine ⟨hb, ?_⟩
+  intro hnil
+  rw [hnil] at hb
+  simp only [List.nil_append] at hb
+  exact ⟨hb, hb.nodup_iff.2 List.nodup_range⟩
+
+/-- Non-vacuity (worksteal): a run with a successful steal round trip. -/
+example :
+    ∃ s e g, WorkSteal.runOps (WorkSteal.init (τ := Nat) 2) {} {}
+      [.addNode 0, .addNode 1, .addNodeCollection 0 [10, 11, 12, 13, 14, 15], .addNodeCollection 1 [10, 11, 12, 13, 14, 15],
+       .schedule, .markComplete 0 0 false, .markComplete 0 1 false, .removePending 1 [5],
+       .markComplete 0 2 false, .markComplete 0 5 false, .markComplete 1 3 false, .markComplete 1 4 false]
+        = some (s, e, g)
+      ∧ s.collection = some [10, 11, 12, 13, 14, 15] ∧ g.crashed = [] ∧ g.requeued = []
+      ∧ (WorkSteal.view s).all = [] ∧ SOut.steal 1 [5] ∈ e.outs := by
   refine ⟨_, _, _, rfl, ?_⟩
   decide
 
